@@ -16,6 +16,19 @@ t1=$(date +%s.%N)
 done_line=$(grep '^BOUNDED-DONE' "$W/out.txt" | head -1)
 nfail=$(grep -c '^BOUNDED-FAIL' "$W/out.txt")
 rc=0
+if [ -z "$done_line" ] && grep -q '^BOUNDED-START' "$W/out.txt" && grep -q '^fatal error: \|^runtime: goroutine stack exceeds\|^panic: ' "$W/out.txt"; then
+  # the generator process died on a description the parser accepts: that is the failing run
+  last=$(grep '^BOUNDED-START' "$W/out.txt" | tail -1 | sed 's/^BOUNDED-START //')
+  why=$(grep -m1 '^fatal error: \|^panic: ' "$W/out.txt")
+  mkdir -p "$OUT/replays/C07"
+  { echo "obligation: bounded stand-in for C07 (the generator terminates without crashing on every accepted description)"
+    echo "BOUNDED-FAIL kind=process-died $last reason=\"$why\""
+    echo "the real generateTemplate was running on that description when the test process died; first lines of the runtime's report:"
+    grep -m1 -A12 '^fatal error: \|^runtime: goroutine stack exceeds\|^panic: ' "$W/out.txt"; } > "$OUT/replays/C07/bounded_typecheck_failures.txt"
+  echo "VIOLATION property=C07 replay=$OUT/replays/C07/bounded_typecheck_failures.txt"
+  python3 "$HERE/merge_evidence.py" "$OUT/evidence/C07.json" "generator process died" 0 0 1 "$DEPTH" 0
+  exit 1
+fi
 if [ -z "$done_line" ]; then
   echo "ENGINE-ERROR: bounded C07 driver did not complete" >&2; tail -5 "$W/out.txt" >&2
   python3 "$HERE/merge_evidence.py" "$OUT/evidence/C07.json" "driver did not complete" 0 0 0 "$DEPTH" 0
